@@ -79,7 +79,8 @@ where
             self.rollback()?;
         }
 
-        self.save_rollback_state();
+        // Each rollback() re-bases the change baseline itself; doing it here as well would, when
+        // there was nothing to undo, copy uncommitted edits into the "previous" state.
         Ok(self.stamp())
     }
 
